@@ -68,6 +68,7 @@ def run(ctx):
     r8_recognition_order(ctx, pf)
     r9_kwargs_type(ctx)
     c05.seed_truthiness(ctx, "C15.R10")
+    r11_arm_agreement(ctx, ctx.fn(SAF, "SafeLearner._parse_pred"))
 
 
 def _is_identity_any(e, actions_name):
@@ -177,6 +178,45 @@ def r9_kwargs_type(ctx):
         sel = c.args[0]
         ok = isinstance(sel, ast.IfExp) and unparse(sel.body).endswith("[-1]") or unparse(sel).endswith("[-1]")
         ctx.ob("C15.R9", SAF, "SafeLearner.has_kwargs", c, "the element tested is the last one of the (first row of the) answer", ok, stmt="kwargs position")
+
+
+def r11_arm_agreement(ctx, pp):
+    """Sibling cross-check of the three batch-order arms of _parse_pred."""
+    ctx.rule("C15.R11", "the un-batched, row-major and column-major arms of _parse_pred agree: with kwargs present a two-item answer (payload, kwargs) is "
+                        "unwrapped to its payload in every arm; in the column-major arm a PMF is sampled per row from the transposed columns (zip(*pred))")
+    arms = {}
+    for x in pp.body:
+        if isinstance(x, ast.If) and isinstance(x.test, ast.Compare) and unparse(x.test.left) == "self._pred_batch" and const_str(x.test.comparators[0]):
+            arms[const_str(x.test.comparators[0])] = x
+    ctx.floor("C15.R11", "batch-order arms", len(arms), 3)
+    for order, arm in sorted(arms.items()):
+        # the statement re-binding the answer when kwargs are present
+        strips = [st for st in arm.body if isinstance(st, ast.Assign) and "self._pred_kwargs" in unparse(st.value) and not unparse(st.targets[0]).startswith("kw")]
+        ok = False
+        for st in strips:
+            for c in ast.walk(st.value):
+                if isinstance(c, ast.Compare) and isinstance(c.left, ast.Call) and call_name(c.left) == "len" and isinstance(c.ops[0], ast.Eq) and unparse(c.comparators[0]) == "2":
+                    ie = parent(c)
+                    if isinstance(ie, ast.BoolOp) and isinstance(ie.op, ast.And):
+                        ie = parent(ie)
+                    if isinstance(ie, ast.IfExp) and c in list(ast.walk(ie.test)) and isinstance(ie.body, ast.Subscript) and unparse(ie.body.slice) == "0" \
+                            and unparse(ie.body.value) == unparse(c.left.args[0]):
+                        ok = True
+        ctx.ob("C15.R11", SAF, "SafeLearner._parse_pred", strips[0] if strips else arm, f"arm '{order}': (payload, kwargs) is unwrapped to the payload", ok, stmt=f"kwargs unwrap in arm {order}")
+    col = arms.get("col")
+    if col is not None:
+        draws = [c for c in ast.walk(col) if isinstance(c, ast.Call) and call_name(c) == "map" and c.args and unparse(c.args[0]).endswith("choicew")]
+        ctx.floor("C15.R11", "PMF draws in the column-major arm", len(draws), 1)
+        for d in draws:
+            ok = len(d.args) == 3 and unparse(d.args[1]) == "actions" and isinstance(d.args[2], ast.Call) and call_name(d.args[2]) == "zip" \
+                and len(d.args[2].args) == 1 and isinstance(d.args[2].args[0], ast.Starred)
+            ctx.ob("C15.R11", SAF, "SafeLearner._parse_pred", d, "column-major PMF: row i draws from (column[i] for every column)", ok, stmt="col PMF transposed")
+    row = arms.get("row")
+    if row is not None:
+        draws = [c for c in ast.walk(row) if isinstance(c, ast.Call) and call_name(c) == "map" and c.args and unparse(c.args[0]).endswith("choicew")]
+        for d in draws:
+            ok = len(d.args) == 3 and unparse(d.args[1]) == "actions" and isinstance(d.args[2], ast.Name)
+            ctx.ob("C15.R11", SAF, "SafeLearner._parse_pred", d, "row-major PMF: row i draws from pred[i]", ok, stmt="row PMF direct")
 
 
 def r7_probe_marked(ctx):
@@ -321,7 +361,7 @@ def r3_sampling(ctx, pp):
         ctx.ob("C15.R3", SAF, "SafeLearner._parse_pred", c, "sampling happens exactly in the PMF arms", any("== 'PM'" in t for t in g), stmt="draw in PM arm: " + unparse(enclosing_stmt(c))[:70])
         call = c if isinstance(c, ast.Call) else parent(c)
         args = [unparse(a) for a in call.args if not (isinstance(a, ast.Attribute) and a.attr == "choicew")]
-        ctx.ob("C15.R3", SAF, "SafeLearner._parse_pred", call, "the draw is over the offered actions weighted by the learner's PMF", args == ["actions", "pred"], detail={"args": args},
+        ctx.ob("C15.R3", SAF, "SafeLearner._parse_pred", call, "the draw is over the offered actions weighted by the learner's PMF", args in (["actions", "pred"], ["actions", "zip(*pred)"]), detail={"args": args},
                stmt="draw args: " + unparse(call)[:70])
     init = ctx.fn(SAF, "SafeLearner.__init__")
     st = [x for x in walk_shallow(init) if isinstance(x, ast.Assign) and any(is_self_attr(t, "_rng") for t in x.targets)]
@@ -412,6 +452,8 @@ def _body_of(st):
 
 
 CONTROLS = [
+    ("column arm keeps the (payload, kwargs) wrapper", SAF, M.replace_expr("SafeLearner._parse_pred", "(pred[0] if len(pred) == 2 else pred[:-1]) if self._pred_kwargs else pred", "pred[:-1] if self._pred_kwargs else pred"), "C15.R11"),
+    ("column PMF not transposed", SAF, M.replace_expr("SafeLearner._parse_pred", "map(self._rng.choicew, actions, zip(*pred))", "map(self._rng.choicew, actions, pred)"), "C15.R11"),
     ("identity test dropped before the PMF look-alike", SAF, M.delete_stmt("SafeLearner.pred_format", M.text_has("if any((std_pred[0] is action for action in actions)): return 'AX'")), "C15.R8"),
     ("str guard merged away", SAF, M.replace_expr("SafeLearner.pred_format", "no_len(std_pred) or isinstance(std_pred, str)", "no_len(std_pred)"), "C15.R8"),
     ("kwargs must be a dict", SAF, M.replace_expr("SafeLearner.has_kwargs", "abc.Mapping", "dict"), "C15.R9"),
